@@ -169,6 +169,9 @@ func main() {
 	}
 	out.Close()
 	sim.Cleanup()
+	if rederiveFailed > 0 {
+		stats["rederive-failed"] = rederiveFailed
+	}
 	keys := make([]string, 0, len(stats))
 	for k := range stats {
 		keys = append(keys, k)
